@@ -1,7 +1,7 @@
 (* Proofs/MergeBase.v — C02: the building blocks of _ordered_merge
    (names, chunked_copy = identity, one column through one map = C04's theorems, the column loop). *)
 From Coq Require Import ZArith List Lia Bool.
-From EV Require Import Res Arr Join MapStream MapStreamSpec MapStreamBase MapStreamFixed MapIndexedDriver
+From EV Require Import Res Arr Join MapStream MapStreamSpec MapStreamBase MapStreamFixed MapStreamGen MapIndexedDriver
   Merge MergeSpec.
 Import ListNotations.
 Open Scope Z_scope.
@@ -105,14 +105,14 @@ Definition col_ok (n:Z) (c:column) (inv:Z) (m:list Z) (bytes:Z) : Prop :=
   end.
 
 Lemma map_column_stream_ok n c m inv cs vf :
-  1 <= cs -> 0 <= vf -> valid_map n inv m -> col_ok n c inv m (cs * vf) ->
+  1 <= cs -> 0 <= vf -> in_range_map n inv m -> col_ok n c inv m (cs * vf) ->
   map_column_stream c m inv cs vf = Ok (gatherZ c inv m).
 Proof.
   intros Hcs Hvf Hv Hc. destruct c as [z e d|idx vals]; cbn [map_column_stream gatherZ col_ok stream_fuel] in *.
-  - rewrite (map_stream_correct_gen z e d inv m cs (S (length m)) Hcs); [reflexivity| |lia].
+  - rewrite (map_stream_correct_any z e d inv m cs (S (length m)) Hcs); [reflexivity| |lia].
     rewrite Hc. exact Hv.
   - destruct Hc as (Hwf & Hn & Hfit).
-    rewrite (indexed_stream_correct_top idx vals inv m cs vf (S (length m + length idx)) Hwf Hcs Hvf);
+    rewrite (indexed_stream_correct_top idx vals inv m cs vf (2 * length m + length idx + 2)%nat Hwf Hcs Hvf);
       [cbn [bind]; destruct (indexed_spec idx vals inv m); reflexivity| |exact Hfit|lia].
     rewrite Hn. exact Hv.
 Qed.
@@ -127,7 +127,7 @@ Definition side_out (cols:frame) (other:list (list Z)) (suffix:list Z) (m:option
 Definition cols_ok (n:Z) (cols:frame) (m:option (list Z)) (inv bytes:Z) : Prop :=
   match m with
   | None => True
-  | Some mm => valid_map n inv mm /\ forall f, In f cols -> col_ok n (snd f) inv mm bytes
+  | Some mm => in_range_map n inv mm /\ forall f, In f cols -> col_ok n (snd f) inv mm bytes
   end.
 
 Lemma map_side_ok other suffix m inv cs vf ccs n : 1 <= cs -> 0 <= vf -> 1 <= ccs ->
